@@ -22,7 +22,9 @@ EXPLANATION = (
     "spline (both obtained by integrating the Hermite polynomial exactly) - to every row >= i; Simpson's pair coefficients equal the "
     "exact integrals of the Lagrange parabola through three unequally spaced knots over the pair (rows >= i) and over the last "
     "interval (odd row i only), and row 1 is the one-interval trapezoid; (0) no statement writes row 0 (first entry zero); (L) "
-    "integrate contracts y with the LAST row of the very matrices cumsum uses, cumsum contracts the column axis (row r of W . y); (D) "
+    "in index notation integrate(y) == cumsum(y)[..., -1] as a polynomial identity for every class (the same matrices, row -1, the same "
+    "contraction, whatever the spelling: sum of products, matmul, einsum) and in every term of cumsum the output position is the row "
+    "index of a weight matrix while y is summed; (D) "
     "shape domain, exhaustive over rank 1..4 (6 in thorough) x every dim x keepdim x the three methods, with the method bodies inlined: "
     "cumsum keeps the shape, integrate removes the integrated axis (or keeps it with size 1), all other axes stay in place; (R) a "
     "length mismatch reaches the raise before any delegate call; (B) bc_type reaches the slope system, the spline slopes are "
